@@ -184,6 +184,53 @@ pub fn string_op<'b>(ctx: &mut Ctx, bump: &'b Bump, s: &mut BString<'b>, t: &mut
         28 => {
             ctx.both("String::shrink_to_fit", || s.shrink_to_fit(), || t.shrink_to_fit());
         }
+        16 => {
+            // operators and owned-string extension
+            let x = text(c, (a % 5) as usize);
+            match b % 5 {
+                0 => {
+                    ctx.both("String += &str", || *s += &x, || *t += &x);
+                }
+                1 => {
+                    let ns = {
+                        let _g = enter_arena(1);
+                        let tmp = std::mem::replace(s, BString::new_in(bump));
+                        tmp + &x
+                    };
+                    *s = ns;
+                    let nt = std::mem::take(t) + &x;
+                    *t = nt;
+                }
+                2 => {
+                    let parts: Vec<String> = x.chars().map(|c| c.to_string()).collect();
+                    let parts2 = parts.clone();
+                    ctx.both("String::extend(std Strings)", || s.extend(parts), || t.extend(parts2));
+                }
+                3 => {
+                    let cows: Vec<std::borrow::Cow<str>> = x.split_inclusive('a').map(std::borrow::Cow::Borrowed).collect();
+                    let cows2 = cows.clone();
+                    ctx.both("String::extend(Cow<str>)", || s.extend(cows), || t.extend(cows2));
+                }
+                _ => {
+                    ctx.both("as_mut_str().make_ascii_uppercase / IndexMut", || { s.as_mut_str().make_ascii_uppercase(); s[..].make_ascii_lowercase(); }, || { t.as_mut_str().make_ascii_uppercase(); t[..].make_ascii_lowercase(); });
+                }
+            }
+        }
+        10 | 27 => {
+            // builders from iterators
+            let x = text(c, (a % 9) as usize);
+            let ns = {
+                let _g = enter_arena(1);
+                if b & 1 == 0 {
+                    BString::from_iter_in(x.chars(), bump)
+                } else {
+                    use bumpalo::collections::CollectIn;
+                    x.chars().rev().collect_in::<BString>(bump)
+                }
+            };
+            let nt: String = if b & 1 == 0 { x.chars().collect() } else { x.chars().rev().collect() };
+            return SAfter::New(ns, nt);
+        }
         18 => {
             let ns = {
                 let _g = enter_arena(1);
@@ -233,6 +280,34 @@ pub fn string_op<'b>(ctx: &mut Ctx, bump: &'b Bump, s: &mut BString<'b>, t: &mut
             }
             let other = text(c, 2);
             ctx.both("comparisons", || (s.as_str() == other, *s == *other.as_str(), s.as_str() < other.as_str()), || (t.as_str() == other, *t == *other.as_str(), t.as_str() < other.as_str()));
+            {
+                use std::borrow::Cow;
+                use std::hash::{Hash, Hasher};
+                let owned = other.clone();
+                let cow: Cow<str> = Cow::Borrowed(&other);
+                let eqs = (*s == *other.as_str(), *s == &other[..], owned == *s, cow == *s, *s == *s);
+                let eqt = (*t == *other.as_str(), *t == &other[..], owned == *t, cow == *t, true);
+                if eqs != eqt {
+                    ctx.v("C14", format!("PartialEq impls (str, &str, String, Cow) give {:?}, std gives {:?}", eqs, eqt));
+                }
+                let h = |f: &dyn Fn(&mut std::collections::hash_map::DefaultHasher)| {
+                    let mut hs = std::collections::hash_map::DefaultHasher::new();
+                    f(&mut hs);
+                    hs.finish()
+                };
+                if h(&|hs| s.hash(hs)) != h(&|hs| t.hash(hs)) {
+                    ctx.v("C14", "String hashes differently from std's String with the same text".into());
+                }
+                if format!("{}|{:?}|{:>8}|{:.2}", s, s, s, s) != format!("{}|{:?}|{:>8}|{:.2}", t, t, t, t) {
+                    ctx.v("C14", "Display/Debug formatting differs from std's".into());
+                }
+                let rs: &str = s.as_ref();
+                let rb: &[u8] = s.as_ref();
+                let bs: &str = std::borrow::Borrow::borrow(&*s);
+                if rs != t.as_str() || rb != t.as_bytes() || bs != t.as_str() {
+                    ctx.v("C14", "AsRef<str> / AsRef<[u8]> / Borrow<str> give different text".into());
+                }
+            }
         }
         19 | 20 | 21 | 24 => return SAfter::Consume,
         _ => {}
